@@ -346,6 +346,12 @@ def h7(prog, tier="quick"):
                     got = pr(r)
                     if got != ("yes" if model(a, b) else "no"):
                         report(key, "libzwerg/" + f["l"], "`%s` on %s and %s answers %s" % (w, show(_canon(a, U)), show(_canon(b, U)), got))
+                    # a predicate's operands stay on the stack: they must still denote the same sets afterwards
+                    for v, m0, nm in ((va, a, "lower"), (vb, b, "upper")):
+                        m1, why = denote(v.cov, U, "the %s operand of `%s` afterwards" % (nm, w))
+                        if m1 != m0:
+                            report(key, "libzwerg/" + f["l"], "`%s` on %s and %s changes its %s operand, which stays on the stack, to %s" % (
+                                w, show(_canon(a, U)), show(_canon(b, U)), nm, why or show(_canon(m1, U))))
         inst.append((key, {"class": cls, "pairs": len(allm) ** 2}))
     # unary words and words with a constant operand
     f_len, f_low, f_high = word("op_length_aset"), word("op_low_aset"), word("op_high_aset")
@@ -385,7 +391,10 @@ def h7(prog, tier="quick"):
         ok, r = run(f_high, _op(ev, f_high), [mk()], "H7:word:high", "`high` on " + sa)
         if ok and ((r is None) != (not members) or (r is not None and (r.c.v != members[-1] + 1 or r.pos != 0))):
             report("H7:word:high", "libzwerg/" + f_high["l"], "`high` on %s yields %s" % (sa, None if r is None else hex(r.c.v)))
-        ok, r = run(f_empty, _op(ev, f_empty), [mk()], "H7:word:?empty", "`?empty` on " + sa)
+        vs = mk()
+        ok, r = run(f_empty, _op(ev, f_empty), [vs], "H7:word:?empty", "`?empty` on " + sa)
+        if ok and denote(vs.cov, U, "")[0] != a:
+            report("H7:word:?empty", "libzwerg/" + f_empty["l"], "`?empty` on %s changes the set, which stays on the stack" % sa)
         if ok and pr(r) != ("yes" if not members else "no"):
             report("H7:word:?empty", "libzwerg/" + f_empty["l"], "`?empty` on %s answers %s" % (sa, r))
         for f_e, w, want in ((f_elem, "elem", members), (f_relem, "relem", members[::-1])):
@@ -420,9 +429,12 @@ def h7(prog, tier="quick"):
                 m, why = denote(r.cov, U, "the result of `sub` of %#x from %s" % (x, sa))
                 if m is None or m != a & ~bit:
                     report("H7:word:sub-cst", "libzwerg/" + f_subc["l"], why or "`sub` of %#x from %s yields %s" % (x, sa, show(_canon(m, U))))
-            ok, r = run(f_contc, _op(ev, f_contc), [mk(), cst()], "H7:word:?contains-cst", "`?contains` %#x on %s" % (x, sa))
+            vs = mk()
+            ok, r = run(f_contc, _op(ev, f_contc), [vs, cst()], "H7:word:?contains-cst", "`?contains` %#x on %s" % (x, sa))
             if ok and pr(r) != ("yes" if a & bit else "no"):
                 report("H7:word:?contains-cst", "libzwerg/" + f_contc["l"], "`?contains` %#x on %s answers %s" % (x, sa, r))
+            if ok and denote(vs.cov, U, "")[0] != a:
+                report("H7:word:?contains-cst", "libzwerg/" + f_contc["l"], "`?contains` %#x on %s changes the set, which stays on the stack" % (x, sa))
     for x in U:
         for y in U:
             ok, r = run(f_mk, _op(ev, f_mk), [VCst(Cst(x, "address"), 0), VCst(Cst(y, "address"), 0)], "H7:word:aset", "`aset` of %#x and %#x" % (x, y))
